@@ -6,12 +6,17 @@ Updates seeded/<name>/meta.json -> verification.checks / verification.rechecked.
 import glob, json, os, shutil, subprocess, sys, tempfile
 
 HERE = os.path.dirname(os.path.dirname(os.path.abspath(__file__)))
+SEED = os.environ.get("SEEDRERUN_SEED", "1")
+OWN_ONLY = os.environ.get("SEEDRERUN_OWN_ONLY") == "1"
+DRY = SEED != "1" or OWN_ONLY  # other seeds / partial runs are reported, not stored
 names = sys.argv[1:] or sorted(os.path.basename(os.path.dirname(p)) for p in glob.glob(os.path.join(HERE, "seeded", "*", "patch.diff")))
 head = subprocess.run(["git", "-C", "/repo", "rev-parse", "--short", "HEAD"], capture_output=True, text=True).stdout.strip()
 for name in names:
     d = os.path.join(HERE, "seeded", name)
     meta = json.load(open(os.path.join(d, "meta.json")))
     props = sorted({k.split("@")[0] for k in meta["verification"]["checks"]})
+    if OWN_ONLY:
+        props = [p for p in props if p == name[:3]] or props[:1]
     tmp = tempfile.mkdtemp(prefix="vfseed-")
     try:
         subprocess.run(f"git -C /repo archive HEAD simfile testdata | tar -x -C {tmp}", shell=True, check=True)
@@ -23,14 +28,15 @@ for name in names:
             continue
         res = {}
         for pid in props:
-            e = dict(os.environ, VERIF_REPO_ROOT=tmp, VERIF_EVIDENCE_DIR=os.path.join(tmp, "ev"), VERIF_REPLAY_DIR=os.path.join(tmp, "rp"), VERIF_SEED="1")
+            e = dict(os.environ, VERIF_REPO_ROOT=tmp, VERIF_EVIDENCE_DIR=os.path.join(tmp, "ev"), VERIF_REPLAY_DIR=os.path.join(tmp, "rp"), VERIF_SEED=SEED)
             c = subprocess.run([os.path.join(HERE, "check"), pid], cwd=HERE, env=e, capture_output=True, text=True)
             lines = c.stdout.strip().splitlines()
             msg = next((l for l in lines if not l.startswith(("KNOWN-FINDING", "VIOLATION", "NOTE"))), "")
-            res[f"{pid}@seed1"] = {"exit": c.returncode, "verdict": {0: "MISSED", 1: "DETECTED"}.get(c.returncode, "HARNESS-ERROR"), "message": msg[:400]}
-        meta["verification"]["checks"] = res
-        meta["verification"]["rechecked"] = {"repo_head": head, "applies": True}
-        json.dump(meta, open(os.path.join(d, "meta.json"), "w"), indent=1)
+            res[f"{pid}@seed{SEED}"] = {"exit": c.returncode, "verdict": {0: "MISSED", 1: "DETECTED"}.get(c.returncode, "HARNESS-ERROR"), "message": msg[:400]}
+        if not DRY:
+            meta["verification"]["checks"] = res
+            meta["verification"]["rechecked"] = {"repo_head": head, "applies": True}
+            json.dump(meta, open(os.path.join(d, "meta.json"), "w"), indent=1)
         print(name, {k: v["verdict"] for k, v in res.items()})
     finally:
         shutil.rmtree(tmp, ignore_errors=True)
